@@ -516,9 +516,10 @@ write_call_args(std::ostream &call, const vector_string &pexprs) const {
   size_t pn;
   size_t num_parameters = pexprs.size();
 
+  // The special-method wrappers pass the expressions their slot supplies; a
+  // method declared with fewer parameters than that takes only its own.
   for (pn = _first_true_parameter;
-       pn < num_parameters; ++pn) {
-    nassertd(pn < _parameters.size()) break;
+       pn < num_parameters && pn < _parameters.size(); ++pn) {
     call << separator;
     _parameters[pn]._remap->pass_parameter(call, get_parameter_expr(pn, pexprs));
     separator = ", ";
